@@ -10,6 +10,38 @@ from .c01 import wrap
 U = 'codegen.c'
 NAN_RULE = 'R03.13'
 SCALARS = ('bool', 'char', 'short', 'int', 'long', 'uchar', 'ushort', 'uint', 'ulong', 'enum', 'ptr', 'float', 'double', 'ldouble')
+# An expression of array / function / VLA type that is an operand of a truth test is not converted by the parser (`if (*p)` with `char (*p)[4]`,
+# `q->s && x` with a member array, `f ? a : b` with a function designator): its value is the address the code generator leaves in %rax, a pointer
+# (C11 6.3.2.1p3-4), whatever `size` the type itself records. The truth-test catalogue therefore contains these kinds next to the scalars.
+ADDRESS_VALUED = ('array', 'func', 'vla')
+TRUTH_OPERANDS = SCALARS + ADDRESS_VALUED
+WIDTH_RULE = 'R03.19'
+
+
+def _value_cats(cats):
+    """type classes by the representation of the value: an address-valued operand is a 64-bit pointer"""
+    return {k: ('ptr' if v in ADDRESS_VALUED else v) for k, v in cats.items()}
+
+
+def _mentions(t, leaf):
+    if t == leaf:
+        return True
+    return isinstance(t, tuple) and any(_mentions(x, leaf) for x in t)
+
+
+def _addr_truth_tests(s, cats):
+    """the conditional jumps of one path that compare the value of a pointer-like child (pointer, array, function, VLA): [(child, class, whole value?, condition term)]"""
+    out = []
+    last = None
+    for e in s.events:
+        if e[0] == 'eval' and e[1] == 'expr':
+            last = e[2]
+        elif e[0] == 'branch' and last is not None and (cats.get(last) == 'ptr' or cats.get(last) in ADDRESS_VALUED):
+            c = canon(e[1])
+            if not (isinstance(c, tuple) and c and c[0] == 'cmp' and _mentions(c, ('r', last, 64))):
+                continue
+            out.append((last, cats[last], c in zero_test_terms(last, 'ptr'), c))
+    return out
 
 
 def present(it, root, f):
@@ -304,9 +336,17 @@ def skeleton(cg, rep, rule, fname, kind, mk, expect, result=None, both=(), nan_r
             jump_obligations(rep, rule, key, ctx, tr, where, jumps)
         if not finals and rx is not None:
             rep.ob(rule, key + ':has-exit', False, 'no path through the emitted code of %s reaches its end' % kind, where=where, facts={'trace': tr.text()})
+        tcats, cats = cats, _value_cats(cats)
         for s in finals:
             sig, q = signature(s, cats)
             nsig += 1
+            if nan_rule:
+                for child, cat, whole, cterm in _addr_truth_tests(s, tcats):
+                    rep.ob(WIDTH_RULE, '%s:truth-test-of-%s/%s:whole-value' % (key, child, cat), whole,
+                           'in %s the truth test of the %s operand `%s` is %r: the value of such an operand is an address (64 bits), but the comparison with zero reads only part of it, '
+                           'so an object or function whose address has those bits zero (anything mapped at a multiple of 4 GiB) counts as a null pointer and the construct takes the branch of a false condition '
+                           '(`char (*p)[4]; if (*p) ...`, a member array `q->s && x`, `while (fn)`)' % (kind, cat, child, cterm),
+                           where='%s:%d' % (U, cg.cu.fn('cmp_zero').line) if 'cmp_zero' in cg.cu.functions else where, facts={'trace': tr.text(), 'path': sig})
             ok = rx is not None and re.match(rx, sig) is not None
             rep.ob(rule, key + ':order', ok,
                    'the emitted code of %s can execute `%s`, which is not an execution of the C abstract machine for this statement form (expected pattern %s)' % (kind, sig, rx),
@@ -358,7 +398,7 @@ def const_is(v):
 
 def r_logic(cg, rep, rule, nan_rule=None):
     """&& and ||: left operand first, right operand only when needed, each operand tested for zero at its own type, result 0/1"""
-    any_scalar = lambda label: cg.tcell(label, only=SCALARS)
+    any_scalar = lambda label: cg.tcell(label, only=TRUTH_OPERANDS)
     # --- expression level -------------------------------------------------------------
     def mk_logic(kind):
         def mk(ctx):
@@ -382,7 +422,10 @@ def r033(cg, rep):
     rep.rule(NAN_RULE, 'a floating controlling expression / logical operand selects the branch by whether it compares unequal to zero, so a NaN (float, double or long double) takes the `true` branch: '
                        'in every statement and short-circuit form (if, for/while, do, ?:, &&, ||) each truth test of a floating operand treats the unordered outcome as non-zero, '
                        'and so do the shared zero test and `!` (the latter two: same obligations as C02 R02.4)', floor=30)
-    any_scalar = lambda label: cg.tcell(label, only=SCALARS)
+    any_scalar = lambda label: cg.tcell(label, only=TRUTH_OPERANDS)
+    rep.rule(WIDTH_RULE, 'a controlling expression / logical operand whose value is an address - pointer, and the kinds the parser leaves unconverted: array, function designator, VLA - is compared with zero '
+                         'as a whole (all 64 bits) in every statement and short-circuit form (if, for/while, do, ?:, &&, ||), whatever `size` its type records (an array of 4 bytes or less, a function type of size 1): '
+                         'C11 6.3.2.1p3-4 the value is a pointer, 6.8.4.1p2 / 6.8.5p4 / 6.5.13-15 the branch is selected by whether it compares unequal to 0', floor=12)
     r_logic(cg, rep, 'R03.3', nan_rule=NAN_RULE)
 
     def mk_cond(ctx):
@@ -1527,6 +1570,9 @@ def r038(P, rep):
         rep.ob('R03.8', 'parse.c:function:parameters-and-body-inside-function-scope', okp,
                'a function definition does not enter one scope, then its parameters (and __func__), then parse the body, then leave the scope: %r — parameters would leak into / be missing from the scope the body is parsed in (C11 6.2.1p4)'
                % [(x[0], x[1]) for x in evs], where=where)
+    from ..lib_c03proto import declare_body_scope, r_body_scope
+    declare_body_scope(rep)
+    r_body_scope(P, rep, pu, it, 'function', paths)
     if n_body == 0:
         rep.undecided('R03.8', 'parse.c:function:body', 'no path of function() parses a body', where=where)
     if n_decl == 0:
